@@ -19,7 +19,11 @@ fn v4(sim: &Sim, class: &str, detail: String) {
 #[derive(Debug)]
 enum Outcome {
     Ok(usize),
-    Err(Code, String, usize, usize), // code, message, details len, items before
+    Err(Code, String, usize, usize, Option<(Option<Vec<u8>>, Option<Vec<u8>>)>), // code, message, details len, items before, (x-extra, x-extra-bin) of the status' metadata
+}
+
+fn extra_md(e: &tonic::Status) -> Option<(Option<Vec<u8>>, Option<Vec<u8>>)> {
+    Some((e.metadata().get("x-extra").map(|v| v.as_bytes().to_vec()), e.metadata().get_bin("x-extra-bin").and_then(|v| v.to_bytes().ok()).map(|b| b.to_vec())))
 }
 
 /// unary or server-streaming call against the peer; returns what the caller observed
@@ -28,7 +32,7 @@ fn call(sim: &Sim, peer: &PeerSvc, streaming: bool) -> Option<Outcome> {
     let fut = async {
         if streaming {
             match client.server_stream(tonic::Request::new(RawMsg(Bytes::from_static(b"q")))).await {
-                Err(e) => Outcome::Err(e.code(), e.message().to_string(), e.details().len(), 0),
+                Err(e) => Outcome::Err(e.code(), e.message().to_string(), e.details().len(), 0, extra_md(&e)),
                 Ok(r) => {
                     let mut s = r.into_inner();
                     let mut n = 0usize;
@@ -36,7 +40,7 @@ fn call(sim: &Sim, peer: &PeerSvc, streaming: bool) -> Option<Outcome> {
                         match s.message().await {
                             Ok(Some(_)) => n += 1,
                             Ok(None) => break Outcome::Ok(n),
-                            Err(e) => break Outcome::Err(e.code(), e.message().to_string(), e.details().len(), n),
+                            Err(e) => break Outcome::Err(e.code(), e.message().to_string(), e.details().len(), n, extra_md(&e)),
                         }
                         if n > 1000 {
                             break Outcome::Ok(n);
@@ -47,7 +51,7 @@ fn call(sim: &Sim, peer: &PeerSvc, streaming: bool) -> Option<Outcome> {
         } else {
             match client.unary(tonic::Request::new(RawMsg(Bytes::from_static(b"q")))).await {
                 Ok(_) => Outcome::Ok(1),
-                Err(e) => Outcome::Err(e.code(), e.message().to_string(), e.details().len(), 0),
+                Err(e) => Outcome::Err(e.code(), e.message().to_string(), e.details().len(), 0, extra_md(&e)),
             }
         }
     };
@@ -123,9 +127,12 @@ pub fn run_headers(sim: &Sim, _idx: u64) {
     if let Some(d) = &det_val {
         sh.push(("grpc-status-details-bin".into(), d.clone()));
     }
+    let mut extra_sent: Option<Vec<u8>> = None;
     if sim.chance(1, 3) {
+        let bin = sim.bytes(5);
         sh.push(("x-extra".into(), b"v".to_vec()));
-        sh.push(("x-extra-bin".into(), indep::b64_encode(&sim.bytes(5), sim.chance(1, 2)).into_bytes()));
+        sh.push(("x-extra-bin".into(), indep::b64_encode(&bin, sim.chance(1, 2)).into_bytes()));
+        extra_sent = Some(bin);
     }
     let mut script = PeerScript::ok_grpc();
     script.pending_pct = sim.pick(&[0u64, 30]);
@@ -165,7 +172,16 @@ pub fn run_headers(sim: &Sim, _idx: u64) {
     }
     match out {
         Outcome::Ok(n) => v4(sim, "non-ok-status-read-as-success", format!("peer sent grpc-status {:?}, caller sees success ({n} items)", String::from_utf8_lossy(&status_val))),
-        Outcome::Err(code, msg, dlen, items) => {
+        Outcome::Err(code, msg, dlen, items, extra) => {
+            // custom metadata next to the status fields arrives with the error status, whether or not
+            // the fields themselves could be decoded
+            if let (Some(bin), Some((a, b))) = (&extra_sent, &extra) {
+                if a.as_deref() != Some(b"v".as_slice()) || b.as_ref() != Some(bin) {
+                    v4(sim, "status-metadata-lost", format!("peer sent x-extra / x-extra-bin next to grpc-status {:?} grpc-message {:?} details {:?}; the error status carries x-extra={:?} x-extra-bin={:?}", String::from_utf8_lossy(&status_val), show(&msg_val), show(&det_val), a, b));
+                } else {
+                    sim.probe("status-metadata-arrived");
+                }
+            }
             if items as u64 != nmsgs {
                 v4(sim, "messages-lost-before-status", format!("peer sent {nmsgs} messages before the status, caller saw {items}"));
             }
@@ -219,14 +235,14 @@ pub fn run_code_bytes(sim: &Sim, idx: u64) {
     let Some(out) = call(sim, &peer, true) else { return };
     match (canonical, out) {
         (Some(0), Outcome::Ok(_)) => {}
-        (Some(0), Outcome::Err(c, m, _, _)) => v4(sim, "ok-status-read-as-error", format!("grpc-status \"0\" read as {c:?} {m:?}")),
-        (Some(c), Outcome::Err(got, _, _, _)) => {
+        (Some(0), Outcome::Err(c, m, _, _, _)) => v4(sim, "ok-status-read-as-error", format!("grpc-status \"0\" read as {c:?} {m:?}")),
+        (Some(c), Outcome::Err(got, _, _, _, _)) => {
             if got != Code::from_i32(c) {
                 v4(sim, "valid-status-misread", format!("grpc-status {text:?} read as {got:?}"));
             }
         }
         (Some(c), Outcome::Ok(_)) => v4(sim, "non-ok-status-read-as-success", format!("grpc-status {c} read as success")),
-        (None, Outcome::Err(got, _, _, _)) => {
+        (None, Outcome::Err(got, _, _, _, _)) => {
             sim.probe("malformed-code-bytes");
             if got != Code::Unknown {
                 v4(sim, "malformed-status-not-unknown", format!("grpc-status bytes {:02x?} ({text:?}) read as {got:?}", val));
@@ -285,7 +301,7 @@ pub fn run_http_status(sim: &Sim, idx: u64) {
     let Some(out) = call(sim, &peer, streaming) else { return };
     match out {
         Outcome::Ok(n) => v4(sim, "http-error-status-read-as-success", format!("HTTP {code} without grpc-status: caller sees success ({n} items)")),
-        Outcome::Err(c, m, _, _) => {
+        Outcome::Err(c, m, _, _, _) => {
             if c != want {
                 v4(sim, "http-status-mapping-wrong", format!("HTTP {code} without grpc-status: caller sees {c:?} ({m:?}), table says {want:?}"));
             }
@@ -326,7 +342,7 @@ pub fn run_reset(sim: &Sim, idx: u64) {
     let Some(out) = call(sim, &peer, streaming) else { return };
     match out {
         Outcome::Ok(n) => v4(sim, &format!("reset-read-as-success-reason-{reason}"), format!("stream reset with reason {reason}: caller sees success ({n} items)")),
-        Outcome::Err(c, m, _, _) => {
+        Outcome::Err(c, m, _, _, _) => {
             if let Some(w) = want {
                 if c != w {
                     v4(sim, &format!("h2-reset-mapping-wrong-reason-{reason}"), format!("RST_STREAM reason {reason}: caller sees {c:?} ({m:?}), gRPC table says {w:?}"));
